@@ -1,6 +1,7 @@
 package main
 
 import (
+	"context"
 	"flag"
 	"fmt"
 	"go/parser"
@@ -54,6 +55,7 @@ func cmdFn(args []string) {
 	tmo := fs.Int("t", 10000, "per-obligation timeout (ms)")
 	keep := fs.Bool("keep", false, "keep SMT scripts in /tmp/govc-smt")
 	verbose := fs.Bool("v", false, "print every obligation")
+	explain := fs.Bool("explain", false, "for undecided obligations, show a model of the quantifier-free part")
 	fs.Parse(args)
 	t0 := time.Now()
 	p, err := loadProgram(*repo)
@@ -123,6 +125,22 @@ func cmdFn(args []string) {
 					if o.Output != "" {
 						fmt.Printf("            %s\n", firstLines(o.Output, 12))
 					}
+					if *explain && o.Status == "unknown" {
+						script, probes := explainScript(j, o)
+						ctx, cancel := context.WithTimeout(context.Background(), 30*time.Second)
+						out, _ := runSolver(ctx, "z3-new", []string{"-in"}, script)
+						cancel()
+						ans, rest := solverAnswer(out)
+						fmt.Printf("            explain (quantifier-free part): %s\n", ans)
+						if ans == "sat" {
+							vals := pairValues(rest)
+							for k, p := range probes {
+								if k < len(vals) {
+									fmt.Printf("              %s  =  %s\n", truncate(p.String(), explainWidth()), vals[k])
+								}
+							}
+						}
+					}
 				}
 			}
 		}
@@ -155,7 +173,7 @@ func (p *Program) runJobsL(fns []*ssa.Function, lemmas []*Contract, cfg SolverCf
 		p.generate(j)
 		j.GenSecs = time.Since(t0).Seconds()
 		if os.Getenv("GOVC_PROGRESS") != "" {
-			fmt.Fprintf(os.Stderr, "generated %s: %d obligations, %d facts in %.2fs\n", j.Name, len(j.Obls), len(j.Facts), j.GenSecs)
+			fmt.Fprintf(os.Stderr, "generated %s: %d obligations, %d facts in %.2fs (%s)\n", j.Name, len(j.Obls), len(j.Facts), j.GenSecs, j.Stats)
 		}
 		jobs = append(jobs, j)
 	}
@@ -254,4 +272,36 @@ func truncate(s string, n int) string {
 		return s[:n] + "..."
 	}
 	return s
+}
+
+// pairValues returns the values of a get-value answer in order.
+func pairValues(s string) []string {
+	var out []string
+	s = strings.TrimSpace(s)
+	depth := 0
+	start := -1
+	for i, c := range s {
+		switch c {
+		case '(':
+			depth++
+			if depth == 2 {
+				start = i
+			}
+		case ')':
+			if depth == 2 && start >= 0 {
+				_, v := splitPair(s[start+1 : i])
+				out = append(out, v)
+				start = -1
+			}
+			depth--
+		}
+	}
+	return out
+}
+
+func explainWidth() int {
+	if os.Getenv("GOVC_EXPLAIN_WIDE") != "" {
+		return 100000
+	}
+	return 160
 }
